@@ -104,7 +104,7 @@ type c15Seq struct {
 	Copy    bool   `json:"body_chunks_via_io_copy"` // body chunks are sent with io.Copy(resp, reader) instead of resp.Write
 	HWF     bool   `json:"plain_handler_via_HandleWithFilter"`
 	Nested  bool   `json:"container_nested_as_plain_handler_of_an_outer_container"` // the observing filter sits on the outer container
-	Panic   bool   `json:"handler_panics_after_its_calls"` // recovery is on; IF the observing filter resumes, what it reads must be true
+	Panic   bool   `json:"handler_panics_after_its_calls"`                          // recovery is on; IF the observing filter resumes, what it reads must be true
 }
 
 var c15Firsts = []string{"none", "WriteHeader", "WriteEntity", "WriteHeaderAndEntity", "WriteAsJson", "WriteAsXml", "WriteHeaderAndJson", "WriteHeaderAndXml", "WriteJson",
